@@ -27,13 +27,15 @@ def units(faulty):
     return specs
 
 
-def _observe(res_unit, fn, make, reg, faulty, out):
+def _observe(res_unit, fn, make, reg, faulty, out, replayer=None):
     """run fn on generic arguments; collect effects and the outcome classes per path"""
     from kvc.core import PyRaise
     from kvc.interp import FrameViolation
     from kvc.models import IfaceViolation, IOFault
     from kvc.verify import Result, collect, explore_unit, make_interp, path_obligation, run_body
     res = Result(res_unit)
+    if replayer is not None:
+        res.replayer = replayer
 
     def run(ctx):
         args, closers = make(ctx)
@@ -68,6 +70,86 @@ def _observe(res_unit, fn, make, reg, faulty, out):
     # engine limits other than frame/iface are irrelevant here (they are reported by the owning check)
     res.undecided = [u for u in res.undecided if "iface" in str(u[1]).lower() or "frame" in str(u[1]).lower()]
     out.append(common.summarise(res, [common.function_record(fn)]))
+
+
+def history_replayer(key):
+    """native search for a concrete witness of history dependence of a class's cached writer/reader:
+    a stream fault injected at every write/read index, then the same value again; and interleaved use"""
+    def replay(ob):
+        import io
+        from checks import c15, l2
+        from kio.serial import entity_reader, entity_writer
+        T = l2.resolve(key)
+        try:
+            x, y = c15.sample_instance(T, True), c15.sample_instance(T, False)
+        except Exception as ex:       # noqa: BLE001
+            return {"confirmed": None, "note": f"no sample instance: {ex!r}"}
+        ref = io.BytesIO()
+        entity_writer.__wrapped__(T)(ref, x) if hasattr(entity_writer, "__wrapped__") else entity_writer(T)(ref, x)
+        want = ref.getvalue()
+
+        class FailingSink:
+            def __init__(self, k):
+                self.k, self.n = k, 0
+
+            def write(self, b):
+                if self.n == self.k:
+                    raise OSError("injected stream fault")
+                self.n += 1
+
+        class FailingSource:
+            def __init__(self, data, k):
+                self.d, self.p, self.k, self.n = data, 0, k, 0
+
+            def read(self, n=-1):
+                if self.n == self.k:
+                    raise OSError("injected stream fault")
+                self.n += 1
+                out = self.d[self.p:self.p + n]
+                self.p += len(out)
+                return out
+        w, r = entity_writer(T), entity_reader(T)
+        for k in range(0, 200):
+            sink = FailingSink(k)
+            try:
+                w(sink, x)
+                done = True
+            except OSError:
+                done = False
+            except Exception:        # noqa: BLE001
+                done = False
+            buf = io.BytesIO()
+            try:
+                w(buf, x)
+                got = buf.getvalue()
+            except Exception as ex:  # noqa: BLE001
+                got = repr(ex).encode()
+            if got != want:
+                return {"confirmed": True, "class": key, "history": f"a stream fault at write #{k}, then the same value encoded again",
+                        "input": repr(x)[:300], "expected": want.hex()[:200], "observed": got.hex()[:200] if isinstance(got, bytes) else got}
+            if done:
+                break
+        for k in range(0, 200):
+            src = FailingSource(want, k)
+            try:
+                r(src)
+                done = True
+            except OSError:
+                done = False
+            except Exception:        # noqa: BLE001
+                done = False
+            try:
+                back = r(io.BytesIO(want))
+            except Exception as ex:  # noqa: BLE001
+                back = ex
+            if back != x:
+                return {"confirmed": True, "class": key, "history": f"a stream fault at read #{k}, then the same bytes decoded again",
+                        "expected": repr(x)[:300], "observed": repr(back)[:300]}
+            if done:
+                break
+        return {"confirmed": None, "note": "no single-threaded history (fault at every stream call, repeated use) changes the result; "
+                                           "the shared state can still matter under concurrent use"}
+    return replay
 
 
 def run_unit(spec):
@@ -140,14 +222,14 @@ def run_unit(spec):
 
         def make_w(ctx):
             return [Sink(ctx, faulty=faulty), schema_spec.generic_entity(ctx, T, "x")], []
-        _observe(f"frame/L2/{short}/write_entity", w, make_w, reg, faulty, out)
+        _observe(f"frame/L2/{short}/write_entity", w, make_w, reg, faulty, out, replayer=history_replayer(name))
 
         def make_r(ctx):
             x = schema_spec.generic_entity(ctx, T, "x")
             from kvc.core import Enc
             src = Source(ctx, [Enc(("ent", T), x), Raw(ctx.bytes_const("tail"))], faulty=faulty)
             return [src], []
-        _observe(f"frame/L2/{short}/read_entity", r, make_r, reg, faulty, out)
+        _observe(f"frame/L2/{short}/read_entity", r, make_r, reg, faulty, out, replayer=history_replayer(name))
         if T.__flexible__ and not faulty:
             # every path of the reader, including the ones only foreign or malformed input reaches
             def make_g(ctx):
